@@ -85,6 +85,9 @@ pub struct CaseA {
     /// answered decides)
     #[serde(default)]
     pub prompt_change: u8,
+    /// registrations: the algorithm preference list. 0 [-7], 1 [-257, -8] (nothing supported), 2 empty, 3 [-8, -7]
+    #[serde(default)]
+    pub algs: u8,
 }
 
 /// credential ids of varying length (1..=255 bytes, incl. lengths an authenticator of this library never mints)
@@ -188,7 +191,7 @@ fn run_a<S: StoreAccess>(ctx: &mut Ctx, mut store: S, c: &CaseA, ref_handle: Opt
             client_data_hash: vec![3u8; 32].into(),
             rp: make_credential::PublicKeyCredentialRpEntity { id: rp.into(), name: None },
             user: passkey_types::webauthn::PublicKeyCredentialUserEntity { id: b"user-0".to_vec().into(), display_name: "d".into(), name: "n".into() },
-            pub_key_cred_params: cer::params(&[-7]),
+            pub_key_cred_params: cer::params([&[-7i64][..], &[-257, -8], &[], &[-8, -7]][c.algs as usize % 4]),
             exclude_list: descriptors,
             extensions: None,
             options: make_credential::Options { rk: false, up: true, uv: true },
@@ -217,6 +220,9 @@ fn run_a<S: StoreAccess>(ctx: &mut Ctx, mut store: S, c: &CaseA, ref_handle: Opt
             }
             Err(e) => {
                 ctx.class("create/other-error");
+                if c.algs % 4 == 1 {
+                    ctx.class("create/no supported algorithm offered");
+                }
                 if must_exclude {
                     return Err(format!("exclude list names a held credential of {rp:?} but the error is 0x{e:02X}, not credential-excluded"));
                 }
@@ -650,7 +656,20 @@ fn cred_desc() -> impl Strategy<Value = CredDesc> {
 
 fn list_sel() -> impl Strategy<Value = ListSel> {
     let id = prop_oneof![8 => (any::<u16>(), proptest::bool::weighted(0.8)).prop_map(|(k, t)| IdSel::Held(k, t)), 2 => (any::<u8>(), proptest::bool::weighted(0.6)).prop_map(|(k, t)| IdSel::Miss(k, t)), 3 => (any::<u16>(), 0u8..4, proptest::bool::weighted(0.8)).prop_map(|(k, m, t)| IdSel::Near(k, m, t))];
-    prop_oneof![2 => Just(ListSel::Absent), 2 => Just(ListSel::Empty), 5 => proptest::collection::vec(id, 1..5).prop_map(ListSel::Ids)]
+    // long lists: many ids nobody holds, then one more entry (lists are not bounded by the statement; stores that look ids
+    // up in slices see several slices)
+    let miss = (any::<u8>(), proptest::bool::weighted(0.8)).prop_map(|(k, t)| IdSel::Miss(k, t));
+    let long = (proptest::collection::vec(miss, 15..45), id.clone(), any::<u16>()).prop_map(|(mut v, last, at)| {
+        // the extra entry goes to the end or to a random place
+        if at % 2 == 0 {
+            v.push(last);
+        } else {
+            let p = idx(at, v.len() + 1);
+            v.insert(p, last);
+        }
+        ListSel::Ids(v)
+    });
+    prop_oneof![2 => Just(ListSel::Absent), 2 => Just(ListSel::Empty), 5 => proptest::collection::vec(id, 1..5).prop_map(ListSel::Ids), 1 => long]
 }
 
 fn case_a() -> impl Strategy<Value = CaseA> {
@@ -660,7 +679,8 @@ fn case_a() -> impl Strategy<Value = CaseA> {
             let sel = contents.iter().map(|c| c.user as usize).sum::<usize>();
             let find_fault = (kind == Kind::Ref && !create && sel % 4 == 0).then_some([0x28u8, 0x7F, 0x01, 0x06][sel / 4 % 4]);
             let prompt_change = if kind == Kind::Ref && create { (sel % 5) as u8 } else { 0 };
-            CaseA { kind, contents, create, rp, list, empty_ok, find_fault, prompt_change }
+            let algs = if create && sel % 3 == 0 { (sel / 3 % 4) as u8 } else { 0 };
+            CaseA { kind, contents, create, rp, list, empty_ok, find_fault, prompt_change, algs }
         })
 }
 
@@ -707,7 +727,7 @@ pub fn run(ctx: &mut Ctx) {
     for kind in [Kind::Ref, Kind::Memory, Kind::OptionSlot, Kind::ArcMutexMemory].into_iter().filter(|_| fs) {
         for list in [ListSel::Empty, ListSel::Absent, ListSel::Ids(vec![IdSel::Miss(1, false)]), ListSel::Ids(vec![IdSel::Miss(1, true)]), ListSel::Ids(vec![IdSel::Held(0, false)])] {
             for create in [true, false] {
-                let c = CaseA { kind, contents: vec![CredDesc { rp: 0, user: 0, counter: None }], create, rp: 0, list: list.clone(), empty_ok: false, find_fault: None, prompt_change: 0 };
+                let c = CaseA { kind, contents: vec![CredDesc { rp: 0, user: 0, counter: None }], create, rp: 0, list: list.clone(), empty_ok: false, find_fault: None, prompt_change: 0, algs: 0 };
                 if let Err(e) = check_a(ctx, &c) {
                     ctx.violation("authenticator-fixed", json!(c), &e);
                 }
